@@ -462,7 +462,7 @@ func TestVerifC06Table(t *testing.T) {
 			rep.Eval(exp.Nontrivial, c06Canon(table, q))
 			rep.Class(exp.Class)
 			for _, tg := range exp.Tags {
-				rep.Class("conflict:" + tg)
+				rep.Class("saw:" + tg)
 			}
 			if exp.Zone != "" {
 				rep.Unspec(exp.Zone)
@@ -534,17 +534,19 @@ func TestVerifC06Table(t *testing.T) {
 
 	// The run must have seen the situations the property is about.
 	need := map[string]int{
-		"conflict:cname-over-address":        50,
-		"conflict:cname:exact-over-wildcard": 20,
-		"values-exact-over-wildcard":         50,
-		"values-most-specific-wildcard":      50,
-		"self-exception":                     50,
-		"type-exception-exact":               20,
-		"empty-no-value":                     50,
-		"empty-other-qtype":                  50,
-		"cname>values-exact":                 50,
-		"cname>chain-leaves-table":           20,
-		"zone:cname-cycle":                   20,
+		"saw:cname-over-address":                50,
+		"saw:cname:exact-over-wildcard":         20,
+		"saw:cycle:through-queried-name":        20,
+		"saw:cycle:not-containing-queried-name": 20,
+		"values-exact-over-wildcard":            50,
+		"values-most-specific-wildcard":         50,
+		"self-exception":                        50,
+		"type-exception-exact":                  20,
+		"empty-no-value":                        50,
+		"empty-other-qtype":                     50,
+		"cname>values-exact":                    50,
+		"cname>chain-leaves-table":              20,
+		"zone:cname-cycle":                      20,
 	}
 	needKeys := make([]string, 0, len(need))
 	for c := range need {
